@@ -49,6 +49,11 @@ func runC10(c *core.Ctx) {
 	ruleDispatchVisitsAll(c, a, "C10.enqueue")
 	c.Doc("C10.fresh-message", "every message is read into a Message allocated for that read (queues hold pointers)", 1)
 	ruleFreshMessagePerRead(c, a, "C10.fresh-message")
+	// a message arrives intact or not at all: the reader takes exactly the announced bytes
+	// off the stream with the exact reader (a copy that stops at end of stream would hand a
+	// short payload to the handlers) — rule shared with C01
+	c.Doc("C01.exact-reads", "Message.Read hands the stream to exactly two ReadN calls; the payload is storage of that read alone (rule shared with C01)", 3)
+	ruleMessageReads(c)
 }
 
 // ruleDispatchVisitsAll: dispatch offers the message to every registered
